@@ -35,7 +35,14 @@ func (o *Obligation) render(forCVC5 bool) string {
 	for _, d := range vc.specDecls {
 		sb.WriteString(d + "\n")
 	}
-	for _, l := range vc.lines[:o.Prefix] {
+	var anc map[int]bool
+	if vc.anc != nil && o.Block >= 0 {
+		anc = vc.anc[o.Block]
+	}
+	for i, l := range vc.lines[:o.Prefix] {
+		if anc != nil && i < len(vc.lineTag) && vc.lineTag[i] >= 0 && !anc[vc.lineTag[i]] {
+			continue
+		}
 		sb.WriteString(l + "\n")
 	}
 	for _, h := range o.Hints {
@@ -63,7 +70,7 @@ type solverDef struct {
 
 var solvers = map[string]solverDef{
 	"z3-new": {"z3-new", func(f string, t, seed int) []string {
-		return []string{"z3-new", fmt.Sprintf("-T:%d", t), fmt.Sprintf("smt.random_seed=%d", seed), fmt.Sprintf("sat.random_seed=%d", seed), f}
+		return []string{"z3-new", fmt.Sprintf("-T:%d", t), "smt.mbqi=false", fmt.Sprintf("smt.random_seed=%d", seed), fmt.Sprintf("sat.random_seed=%d", seed), f}
 	}},
 	"z3": {"z3", func(f string, t, seed int) []string {
 		return []string{"z3", fmt.Sprintf("-T:%d", t), fmt.Sprintf("smt.random_seed=%d", seed), fmt.Sprintf("sat.random_seed=%d", seed), f}
